@@ -1,12 +1,302 @@
-//! C07 — ops evaluated on the real code and the generator of their inputs.
-#![allow(unused_imports, dead_code, clippy::all)]
+//! C07 — `BellmanFordMoore::new(..).distances()` on the real code.
+//!
+//!   bfm_dist [wi n warcs] s   =>  (panic | none | [d…])  (- | [dijkstra d…])
+//!
+//! `d` entries: integers, `inf` for `isize::MAX` (BFM) / `usize::MAX` (Dijkstra).  The second
+//! output is the real `DijkstraDist::distances` on the same arcs (as an
+//! `AdjacencyListWeighted<usize>`), only when every weight is non-negative and `s` is in range.
+#![allow(clippy::all)]
 
 use crate::graphs::{self, Desc};
 use crate::rng::Rng;
 use crate::value::V;
+use graaf::{AddArcWeighted, AdjacencyListWeighted, ArcsWeighted, BellmanFordMoore, DijkstraDist, Empty};
+use std::collections::{BTreeMap, BTreeSet};
+use std::panic::{catch_unwind, AssertUnwindSafe};
 
-pub fn eval(_op: &str, _args: &[V]) -> Option<Vec<V>> {
-    None
+fn inf() -> V {
+    V::atom("inf")
 }
 
-pub fn gen(_rng: &mut Rng, _thorough: bool, _emit: &mut dyn FnMut(String)) {}
+pub fn eval(op: &str, args: &[V]) -> Option<Vec<V>> {
+    match op {
+        "bfm_dist" => {
+            let [gd, s] = args else { return None };
+            let desc = Desc::parse(gd)?;
+            if desc.repr != "wi" {
+                return None;
+            }
+            let s = s.as_usize()?;
+            let n = desc.order();
+            // a description the real structure rejects is not a case of this property
+            if n == 0 || desc.arcs.iter().any(|&(u, v)| u >= n || v >= n || u == v) {
+                return None;
+            }
+            let digraph = desc.build_wi();
+            let res = catch_unwind(AssertUnwindSafe(|| {
+                let mut bfm = BellmanFordMoore::new(&digraph, s);
+                bfm.distances().map(<[isize]>::to_vec)
+            }));
+            let out = match res {
+                Err(_) => V::atom("panic"),
+                Ok(None) => V::none(),
+                Ok(Some(d)) => V::L(d.iter().map(|&x| if x == isize::MAX { inf() } else { V::i(x) }).collect()),
+            };
+            // the FINAL weights count (a repeated arc in the description replaces the weight)
+            let finals: Vec<(usize, usize, isize)> = digraph.arcs_weighted().map(|(u, v, &w)| (u, v, w)).collect();
+            let nonneg = finals.iter().all(|a| a.2 >= 0);
+            let dij = if nonneg && s < desc.order() {
+                let mut du = AdjacencyListWeighted::<usize>::empty(desc.order());
+                for &(u, v, w) in &finals {
+                    du.add_arc_weighted(u, v, w as usize);
+                }
+                let r = catch_unwind(AssertUnwindSafe(|| DijkstraDist::new(&du, std::iter::once(s)).distances()));
+                match r {
+                    Err(_) => V::atom("panic"),
+                    Ok(d) => V::L(d.iter().map(|&x| if x == usize::MAX { inf() } else { V::u(x) }).collect()),
+                }
+            } else {
+                V::atom("-")
+            };
+            Some(vec![out, dij])
+        }
+        _ => None,
+    }
+}
+
+// ---------------------------------------------------------------------------------------
+// generator
+// ---------------------------------------------------------------------------------------
+
+type WArcs = BTreeMap<(usize, usize), i64>;
+
+fn line(n: usize, arcs: &[((usize, usize), i64)], s: usize) -> String {
+    let d = Desc {
+        repr: "wi".to_string(),
+        verts: (0..n).collect(),
+        arcs: arcs.iter().map(|a| a.0).collect(),
+        weights: arcs.iter().map(|a| i128::from(a.1)).collect(),
+    };
+    format!("bfm_dist {} {s}", d.to_v())
+}
+
+/// Insertion order is part of the description (rows are maps: the real structure sorts).
+fn shuffled(rng: &mut Rng, m: &WArcs) -> Vec<((usize, usize), i64)> {
+    let mut v: Vec<((usize, usize), i64)> = m.iter().map(|(k, w)| (*k, *w)).collect();
+    rng.shuffle(&mut v);
+    v
+}
+
+fn emit_sources(rng: &mut Rng, n: usize, arcs: &WArcs, pref: Option<usize>, emit: &mut dyn FnMut(String)) {
+    let a = shuffled(rng, arcs);
+    if n <= 5 {
+        for s in 0..n {
+            emit(line(n, &a, s));
+        }
+    } else {
+        let mut ss: BTreeSet<usize> = BTreeSet::new();
+        if let Some(p) = pref {
+            let _ = ss.insert(p);
+        }
+        while ss.len() < 3.min(n) {
+            let _ = ss.insert(rng.below(n));
+        }
+        for s in ss {
+            emit(line(n, &a, s));
+        }
+    }
+}
+
+fn order(rng: &mut Rng) -> usize {
+    match rng.below(10) {
+        0 => 1,
+        1..=5 => 2 + rng.below(7),
+        _ => 9 + rng.below(32),
+    }
+}
+
+/// Arc set without negative circuits but with negative weights: `w = p(v) - p(u) + c`, `c >= 0`
+/// (reduced costs non-negative), weights within -4..9.
+fn potential_graph(rng: &mut Rng, n: usize, dens: (u64, u64)) -> WArcs {
+    let p: Vec<i64> = (0..n).map(|_| rng.range(0, 4)).collect();
+    let mut m = WArcs::new();
+    for u in 0..n {
+        for v in 0..n {
+            if u != v && rng.chance(dens.0, dens.1) {
+                let _ = m.insert((u, v), p[v] - p[u] + rng.range(0, 5));
+            }
+        }
+    }
+    m
+}
+
+fn density(rng: &mut Rng, n: usize) -> (u64, u64) {
+    *rng.pick(&[(1, n.max(1) as u64), (2, n.max(1) as u64), (1, 10), (3, 10), (6, 10), (1, 1)])
+}
+
+/// Put a circuit of negative total weight on `cyc` (distinct vertices, len >= 2).
+fn plant_cycle(rng: &mut Rng, m: &mut WArcs, cyc: &[usize]) {
+    let k = cyc.len();
+    let mut ws: Vec<i64> = (0..k).map(|_| rng.range(-4, 3)).collect();
+    // force the sum below zero, staying inside -4..9
+    let mut i = 0;
+    while ws.iter().sum::<i64>() >= 0 {
+        if ws[i % k] > -4 {
+            ws[i % k] -= 1;
+        }
+        i += 1;
+    }
+    for j in 0..k {
+        let _ = m.insert((cyc[j], cyc[(j + 1) % k]), ws[j]);
+    }
+}
+
+fn distinct(rng: &mut Rng, pool: &[usize], k: usize) -> Vec<usize> {
+    let mut p = pool.to_vec();
+    rng.shuffle(&mut p);
+    p.truncate(k);
+    p
+}
+
+fn random_case(rng: &mut Rng, emit: &mut dyn FnMut(String)) {
+    let n = order(rng);
+    match rng.below(10) {
+        // no negative circuit, negative weights present (early exit and full rounds both occur)
+        0 | 1 => {
+            let dens = density(rng, n);
+            let m = potential_graph(rng, n, dens);
+            emit_sources(rng, n, &m, None, emit);
+        }
+        // a path against the arc order (tails descending): every one of the order-1 rounds updates
+        8 if n >= 3 => {
+            let n = n.min(16);
+            let mut m = potential_graph(rng, n, (1, 2 * n as u64));
+            let p: Vec<i64> = (0..n).map(|_| rng.range(0, 4)).collect();
+            // keep only arcs that go "down" so that the chain stays the only way to the low ids
+            m.retain(|&(u, v), _| u > v);
+            for i in 0..n - 1 {
+                let _ = m.insert((i + 1, i), p[i] - p[i + 1] + rng.range(0, 1) - 2);
+            }
+            for w in m.values_mut() {
+                *w = (*w).clamp(-4, 9);
+            }
+            emit_sources(rng, n, &m, Some(n - 1), emit);
+        }
+        // non-negative weights: Dijkstra comparison
+        2 | 3 => {
+            let (_, d) = graphs::gen_wdesc(rng, "wi", 40, 0, 9);
+            let n = d.order();
+            let m: WArcs = d.arcs.iter().zip(&d.weights).map(|(&a, &w)| (a, w as i64)).collect();
+            emit_sources(rng, n, &m, None, emit);
+        }
+        // negative circuit reachable from the preferred source
+        4 | 5 if n >= 2 => {
+            let dens = density(rng, n);
+            let mut m = potential_graph(rng, n, dens);
+            let all: Vec<usize> = (0..n).collect();
+            let k = 2 + rng.below((n - 1).min(4));
+            let cyc = distinct(rng, &all, k.min(n));
+            plant_cycle(rng, &mut m, &cyc);
+            let s = rng.below(n);
+            // a path from s into the circuit
+            if !cyc.contains(&s) {
+                let mid = rng.below(n);
+                if mid != s && !cyc.contains(&mid) && rng.chance(1, 2) {
+                    let _ = m.insert((s, mid), rng.range(-4, 9));
+                    let _ = m.insert((mid, cyc[0]), rng.range(-4, 9));
+                } else {
+                    let _ = m.insert((s, cyc[0]), rng.range(-4, 9));
+                }
+            }
+            emit_sources(rng, n, &m, Some(s), emit);
+        }
+        // negative circuit that the preferred source cannot reach: no arc from A to B
+        6 | 7 if n >= 3 => {
+            let kb = 2 + rng.below((n - 2).min(4));
+            let all: Vec<usize> = (0..n).collect();
+            let b: Vec<usize> = distinct(rng, &all, kb);
+            let a: Vec<usize> = all.iter().copied().filter(|x| !b.contains(x)).collect();
+            let dens = density(rng, n);
+            let mut m = potential_graph(rng, n, dens);
+            m.retain(|&(u, v), _| !(a.contains(&u) && b.contains(&v)));
+            let k = 2 + rng.below(b.len() - 1);
+            let cyc = distinct(rng, &b, k);
+            plant_cycle(rng, &mut m, &cyc);
+            let s = *rng.pick(&a);
+            emit_sources(rng, n, &m, Some(s), emit);
+        }
+        // plain random weights -4..9 on the shared families (sparse ones often circuit-free)
+        _ => {
+            let (_, d) = graphs::gen_wdesc(rng, "wi", 40, -4, 9);
+            let n = d.order();
+            let m: WArcs = d.arcs.iter().zip(&d.weights).map(|(&a, &w)| (a, w as i64)).collect();
+            emit_sources(rng, n, &m, None, emit);
+        }
+    }
+}
+
+/// Exactly `m` arcs on `n` vertices (n*(n-1) >= m), weights from `-4..9` or a potential.
+fn exact_count_case(rng: &mut Rng, n: usize, m_arcs: usize, emit: &mut dyn FnMut(String)) {
+    let mut pairs: Vec<(usize, usize)> = (0..n).flat_map(|u| (0..n).filter(move |&v| v != u).map(move |v| (u, v))).collect();
+    rng.shuffle(&mut pairs);
+    pairs.truncate(m_arcs);
+    let p: Vec<i64> = (0..n).map(|_| rng.range(0, 4)).collect();
+    let mode = rng.below(3);
+    let m: WArcs = pairs
+        .into_iter()
+        .map(|(u, v)| {
+            let w = match mode {
+                0 => p[v] - p[u] + rng.range(0, 5),
+                1 => rng.range(0, 9),
+                _ => rng.range(-4, 9),
+            };
+            ((u, v), w)
+        })
+        .collect();
+    let a = shuffled(rng, &m);
+    for s in 0..n {
+        emit(line(n, &a, s));
+    }
+}
+
+pub fn gen(rng: &mut Rng, thorough: bool, emit: &mut dyn FnMut(String)) {
+    // (1) every arc count 0..=13 (all residues mod 4 several times) on small orders, all sources
+    let reps = if thorough { 40 } else { 5 };
+    for m_arcs in 0..=13usize {
+        for _ in 0..reps {
+            let nmin = (2..).find(|n| n * (n - 1) >= m_arcs).unwrap_or(2);
+            let n = nmin + rng.below(3);
+            exact_count_case(rng, n, m_arcs, emit);
+        }
+    }
+    // (2) structured random cases
+    let n_random = if thorough { 10_000 } else { 320 };
+    for _ in 0..n_random {
+        random_case(rng, emit);
+    }
+    // (3) source out of range: the documented panic of `new` (small separate stream)
+    for _ in 0..(if thorough { 40 } else { 8 }) {
+        let n = 1 + rng.below(5);
+        let m = potential_graph(rng, n, (1, 2));
+        let a = shuffled(rng, &m);
+        emit(line(n, &a, n + rng.below(3)));
+    }
+    // (4) thorough: all digraphs on 3 vertices with weights in {-2..2} (6^6 = 46 656), every source
+    if thorough {
+        let pairs = [(0usize, 1usize), (0, 2), (1, 0), (1, 2), (2, 0), (2, 1)];
+        for code in 0..46_656usize {
+            let mut c = code;
+            let mut a: Vec<((usize, usize), i64)> = vec![];
+            for p in pairs {
+                let d = c % 6;
+                c /= 6;
+                if d > 0 {
+                    a.push((p, d as i64 - 3));
+                }
+            }
+            for s in 0..3 {
+                emit(line(3, &a, s));
+            }
+        }
+    }
+}
